@@ -208,7 +208,54 @@ def simplify(atoms, box=None):
                     continue
             keep.append(a)
         res = keep
-    return res
+    # emptiness of `W.iter().skip(D).map(f).collect()` (however it was tested: is_empty(), len() > 0, on an iterator
+    # chain or on the vector a push loop filled) is the length relation `len(W) <= D`
+    res2 = []
+    for a in res:
+        if a[0] == "pred" and isinstance(a[1], str) and a[1].startswith("is_empty(") and a[2] in (True, False):
+            ea = emptiness_atom(a[1][len("is_empty("):-1], a[2])
+            if ea is not None:
+                res2.append(ea)
+                continue
+        res2.append(a)
+    return res2
+
+
+def emptiness_atom(name, tr):
+    """rel atom for `is_empty(name) == tr` when name is `collect(map(skip(iter(W),D),f))`, else None"""
+    import re as _re
+    pre = "Iterator::collect(Iterator::map(Iterator::skip(<impl [T]>::iter("
+    if not name.startswith(pre):
+        return None
+    i_ = len(pre)
+    dep_, k_ = 0, i_
+    while k_ < len(name):
+        if name[k_] == "(":
+            dep_ += 1
+        elif name[k_] == ")":
+            if dep_ == 0:
+                break
+            dep_ -= 1
+        k_ += 1
+    w_ = name[i_:k_]
+    rest_ = name[k_ + 1:]
+    if not rest_.startswith(","):
+        return None
+    dep_, j_ = 0, 1
+    while j_ < len(rest_):
+        if rest_[j_] == "(":
+            dep_ += 1
+        elif rest_[j_] == ")":
+            if dep_ == 0:
+                break
+            dep_ -= 1
+        j_ += 1
+    d_ = rest_[1:j_]
+    if not rest_[j_ + 1:].startswith(",|x| "):
+        return None
+    pd_ = Poly.const(int(d_)) if _re.match(r"^\d+$", d_) else Poly.sym(d_)
+    ln_ = Poly.sym("len(%s)" % w_)
+    return rel_atom(pd_ - ln_, ">=") if tr else rel_atom(ln_ - pd_ - Poly.const(1), ">=")
 
 
 def _case_symbols(sy, atoms, extra_strs=()):
